@@ -108,8 +108,15 @@ std::string fmt(const std::vector<float> &v) {
   return s.empty() ? "-" : s;
 }
 
+// equal bit patterns; two NaNs are the same value whatever their sign and payload (sqrt(-1) * 0 carries the sign of
+// whichever operand the compiled instruction happened to propagate: x7fc00000 on one path, xffc00000 on the other)
 bool same_bits(const std::vector<float> &a, const std::vector<float> &b) {
-  return a.size() == b.size() && (a.empty() || std::memcmp(a.data(), b.data(), 4 * a.size()) == 0);
+  if (a.size() != b.size()) return false;
+  for (std::size_t i = 0; i < a.size(); ++i) {
+    if (a[i] != a[i] && b[i] != b[i]) continue;
+    if (std::memcmp(&a[i], &b[i], 4) != 0) return false;
+  }
+  return true;
 }
 
 template <class V> struct Side;
